@@ -67,7 +67,7 @@ STRINGS = ['""', '"s"', '"abc"', '" "', '"a b"', '"\\""', '"\\\\"', '"\\/"', '"\
            '"\\u0041"', '"\\u00e9"', '"\\u00E9"', '"\\uD83D\\uDE00"', '"\\ud800"', '"\\udc00x"', '"é"', '"日本"', '"😀"',
            '"a\u007fb"', '" "', '" "', '"﻿"', '"/"', '"{[,:]}"', '"true"', '"1"', '"\\\\u0041"',
            '"\\"\\\\\\/\\b\\f\\n\\r\\t"', '"\U0010ffff"', '"\\u0000"']
-KEYS = ['a', 'b', 'c', 'd', 'ab', 'a b', '', 'é', '日本', '😀', '\\n', '\\u0061', '\\"', 'A', 'type', 'a.b', '\\\\', '0']
+KEYS = ['a', 'b', 'c', 'd', 'ab', 'a b', '', 'é', '日本', '😀', '\\n', '\\u007a', '\\"', 'A', 'type', 'a.b', '\\\\', '0']
 
 def render(d, rng, ws=WS, keys_raw=True):
     """document (vlib representation) -> JSON text, every token rendered by an independent choice"""
